@@ -414,6 +414,20 @@ func runC01(r *hx.Run, replay string) {
 		c01Eval(r, rp.Input, dir)
 		return
 	}
+	// every pair of (for, keep_firing_for) spellings on one alert: a problem of one field must not be lost to the other
+	// (seeded change C01-keepfiring-overwrites-for-problem was only met by chance)
+	for _, f := range []string{"", "5m", "abc", "0", "-1m"} {
+		for _, k := range []string{"", "5m", "abc", "1"} {
+			doc := "groups:\n- name: g\n  rules:\n  - alert: A\n    expr: up == 0\n"
+			if f != "" {
+				doc += "    for: " + f + "\n"
+			}
+			if k != "" {
+				doc += "    keep_firing_for: " + k + "\n"
+			}
+			c01Eval(r, c01Case{Content: doc, Traits: []string{"for-and-keep-firing-for"}}, dir)
+		}
+	}
 	for i := 0; i < r.N; i++ {
 		g := &c01Gen{rr: r.Rng}
 		content := g.doc()
